@@ -71,12 +71,14 @@ var c15bAlts = []string{" @immutable", " @constructor New, Make", " @testonly", 
 	// accepted annotations whose ignored trailing text mentions other keywords
 	" @testonly not an @immutable one", " @immutable (was @constructor N)", " @packageonly w or @testonly", " @mutable unlike @immutable", " @constructor New, Make @implements X",
 	// a tab instead of a blank between // and the keyword
-	"\t@testonly", "\t@packageonly w"}
+	"\t@testonly", "\t@packageonly w",
+	// a form feed (also matched by the regexes' \s) instead of a blank
+	"\f@immutable"}
 
 // the keyword a comment spelling is an annotation of ("" if it is none) — from the documented grammar
 func c15bKeyword(alt string) string {
 	for _, k := range []string{"immutable", "constructor", "testonly", "packageonly", "mutable", "implements"} {
-		for _, p := range []string{" @" + k, "\t@" + k} {
+		for _, p := range []string{" @" + k, "\t@" + k, "\f@" + k} {
 			if len(alt) >= len(p) && alt[:len(p)] == p && (len(alt) == len(p) || alt[len(p)] == ' ') {
 				return k
 			}
